@@ -246,6 +246,49 @@ fn handle(line: &str) -> String {
                 None => bad("hex"),
             }
         }
+        // C04: the contract under which float responses decode (plain decimal text that
+        // parses back to the same bits), evaluated on the implementation's own formatter.
+        "FLOATOK" => {
+            if t.len() != 3 || !t[2].starts_with("0x") {
+                return bad("args");
+            }
+            let bits = match u64::from_str_radix(&t[2][2..], 16) {
+                Ok(b) => b,
+                Err(_) => return bad("hex"),
+            };
+            let plain = |s: &str| {
+                let b = s.strip_prefix('-').unwrap_or(s);
+                !b.is_empty()
+                    && b.chars().all(|c| c.is_ascii_digit() || c == '.')
+                    && b.matches('.').count() <= 1
+                    && !b.starts_with('.')
+                    && !b.ends_with('.')
+            };
+            match t[1] {
+                "f32" => {
+                    if bits > u32::MAX as u64 {
+                        return bad("val");
+                    }
+                    let x = f32::from_bits(bits as u32);
+                    if !x.is_finite() {
+                        return "na".to_string();
+                    }
+                    let s = format!("{}", x);
+                    let ok = plain(&s) && s.parse::<f32>().map(|y| y.to_bits() == bits as u32).unwrap_or(false);
+                    (if ok { "1" } else { "0" }).to_string()
+                }
+                "f64" => {
+                    let x = f64::from_bits(bits);
+                    if !x.is_finite() {
+                        return "na".to_string();
+                    }
+                    let s = format!("{}", x);
+                    let ok = plain(&s) && s.parse::<f64>().map(|y| y.to_bits() == bits).unwrap_or(false);
+                    (if ok { "1" } else { "0" }).to_string()
+                }
+                _ => bad("type"),
+            }
+        }
         // Harness only: exercises the `PANIC` path (the model prints bad-op).
         "SELFTEST" if t.len() == 2 && t[1] == "panic" => panic!("selftest"),
         // Harness only: checks the counting allocator, prints `alloc=3`.
